@@ -30,11 +30,13 @@ _FUNC_RE = re.compile(r"(tartiflette/[\w/]+\.py)::([\w\.]+)")
 # reference graph resolves only by name; listed so that RS covers them too (one line of reason each)
 INPUTS = "tartiflette/coercers/inputs/"
 EXTRA_REACH = {
-    "C01": [("tartiflette/coercers/outputs/compute.py", "get_output_coercer")],   # builds the completion chain the anchors call through `output_coercer`
+    "C01": [("tartiflette/coercers/outputs/compute.py", "get_output_coercer"),
+            ("tartiflette/language/validators/query/fragment_spread_is_possible.py", "*")],   # reads the possible-type sets execution answers from   # builds the completion chain the anchors call through `output_coercer`
     "C02": [("tartiflette/coercers/outputs/compute.py", "get_output_coercer"),
             ("tartiflette/coercers/outputs/abstract_coercer.py", "ensure_valid_runtime_type")],  # an impossible runtime type is one of the contained failures
     "C03": [("tartiflette/coercers/outputs/compute.py", "get_output_coercer"),
-            ("tartiflette/coercers/outputs/common.py", "complete_object_value")],          # the keys of an object are those collected for *its* runtime type, per completion
+            ("tartiflette/coercers/outputs/common.py", "complete_object_value"),
+            ("tartiflette/language/validators/query/fragment_spread_is_possible.py", "*")],   # (as C01) # the keys of an object are those collected for *its* runtime type, per completion
     "C08": [("tartiflette/coercers/outputs/compute.py", "get_output_coercer")],
     "C04": [(INPUTS, "*")],                                                        # the whole variable-coercion package
     "C05": [("tartiflette/coercers/literals/", "*"), ("tartiflette/coercers/arguments.py", "*"),
